@@ -1149,6 +1149,22 @@ impl<'r> Sh<'r> {
                 else_s: None,
             }));
         }
+        if self.rng.chance(1, 3) {
+            // the handler resumes from inside a loop of its own: the interrupted code
+            // must not inherit that loop's frame
+            let resume = self.st(StmtKind::Resume(kind.clone()));
+            let guarded = self.st(StmtKind::IfLine {
+                cond: Expr::Cmp(
+                    CmpOp::Eq,
+                    Box::new(Expr::Var("HK%".into())),
+                    Box::new(Expr::Int(2)),
+                ),
+                then_s: Box::new(resume),
+                else_s: None,
+            });
+            let l = self.for_loop("HK%", vec![guarded]);
+            out.push(l);
+        }
         out.push(self.st(StmtKind::Resume(kind)));
     }
 }
@@ -1218,11 +1234,115 @@ impl<'r> Sh<'r> {
     }
 }
 
+impl<'r> Sh<'r> {
+    /// A FUNCTION that fails, called as the whole condition of a LOOP WHILE / LOOP UNTIL
+    /// line, of an ELSEIF line or as a CASE expression: the call site in the error report is
+    /// the row of that line, not the row of the block's first line or of the statement
+    /// before it. No handler: the first of the constructs ends the program.
+    fn call_site_row_shape(&mut self) -> Scenario {
+        let mut main = vec![self.trace(&[])];
+        let call = |n: i32| Expr::Call("FZ%".into(), vec![Expr::Int(n)]);
+        let mut order = vec![0, 1, 2];
+        // a seeded shuffle
+        for i in (1..order.len()).rev() {
+            let j = self.rng.below(i + 1);
+            order.swap(i, j);
+        }
+        // some statements in front, so that rows differ from scenario to scenario
+        for _ in 0..self.rng.below(3) {
+            let t = self.trace(&["G1%"]);
+            main.push(t);
+        }
+        for k in order {
+            match k {
+                0 => {
+                    let body = vec![self.trace(&[]), self.trace(&["G2%"])];
+                    // (FZ% returns 0: LOOP WHILE leaves the loop, LOOP UNTIL never would)
+                    main.push(self.st(StmtKind::Do {
+                        top: false,
+                        until: false,
+                        cond: call(1),
+                        body,
+                    }));
+                }
+                1 => {
+                    let then_b = vec![self.trace(&[])];
+                    let b2 = vec![self.trace(&[]), self.trace(&[])];
+                    let b3 = vec![self.trace(&[])];
+                    main.push(self.st(StmtKind::If {
+                        cond: Expr::Cmp(
+                            CmpOp::Eq,
+                            Box::new(Expr::Var("G1%".into())),
+                            Box::new(Expr::Int(99)),
+                        ),
+                        then_b,
+                        elseifs: vec![
+                            (
+                                Expr::Cmp(
+                                    CmpOp::Eq,
+                                    Box::new(Expr::Var("G2%".into())),
+                                    Box::new(Expr::Int(98)),
+                                ),
+                                b2,
+                            ),
+                            (call(2), b3),
+                        ],
+                        else_b: None,
+                    }));
+                }
+                _ => {
+                    let c1 = vec![self.trace(&[]), self.trace(&[])];
+                    let c2 = vec![self.trace(&[])];
+                    main.push(self.st(StmtKind::Select {
+                        expr: Expr::Int(5),
+                        cases: vec![
+                            (vec![CaseSpec::Simple(Expr::Int(7))], c1),
+                            (vec![CaseSpec::Simple(call(3))], c2),
+                        ],
+                        else_b: None,
+                    }));
+                }
+            }
+        }
+        main.push(self.trace(&[]));
+        main.push(self.st(StmtKind::End));
+        // FZ% never assigns its result (0); it fails for one of the arguments only
+        let which = 1 + self.rng.below(3) as i32;
+        let f = self.fail();
+        let body = vec![
+            self.trace(&["P1%"]),
+            self.st(StmtKind::IfLine {
+                cond: Expr::Cmp(
+                    CmpOp::Eq,
+                    Box::new(Expr::Var("P1%".into())),
+                    Box::new(Expr::Int(which)),
+                ),
+                then_s: Box::new(f),
+                else_s: None,
+            }),
+        ];
+        Scenario {
+            main,
+            procs: vec![Proc {
+                name: "FZ%".into(),
+                is_function: true,
+                params: vec!["P1%".into()],
+                body,
+                is_static: false,
+            }],
+            stdin: vec![],
+        }
+    }
+}
+
 pub fn gen_resume_shapes(rng: &mut Rng) -> Scenario {
-    let shape = rng.below(3);
+    let shape = rng.below(4);
     let mut g = Sh { rng, next: 0, t: 0 };
     if shape == 2 {
         return g.return_cast_shape();
+    }
+    if shape == 3 {
+        return g.call_site_row_shape();
     }
     let mut main: Vec<Stmt> = vec![];
     let mut procs: Vec<Proc> = vec![];
